@@ -57,7 +57,9 @@ def formulas(ctx: Ctx, rule="FORMULA"):
         ctx.trust(f"py-pde source parsed from {path} (volume_from_radius is a sibling formula)")
     else:
         ctx.undecided(rule, "pde.grids.spherical.volume_from_radius", None, "py-pde source not found in /venv; sibling not compared")
-    for role, vs in variants.items():
+    order = sorted(variants, key=lambda r: (r != "volume_from_radius", r))
+    for role in order:
+        vs = variants[role]
         table[role] = {}
         for name, fi, ex in vs:
             for v, why in ex.problems:
@@ -65,8 +67,15 @@ def formulas(ctx: Ctx, rule="FORMULA"):
             dims = sorted(ex.by_dim)
             want = {1, 2, 3} - ({1} if role == "radius_from_surface" else set())
             missing = want - set(dims)
+            if missing and fi is not None and not fi.name.startswith("make_"):
+                # no dimension chain: evaluate the generic expression for every dimension, inlining sibling converters
+                gen = generic_eval(ctx, fi, table, sorted(missing), rule)
+                for d, (e, node) in gen.items():
+                    ex.by_dim.setdefault(d, []).append((e, node, "generic"))
+                dims = sorted(ex.by_dim)
+                missing = want - set(dims)
             if missing:
-                ctx.violate(rule, f"{name}:dims", fi, f"no closed form found for dimension(s) {sorted(missing)} (found {dims})")
+                ctx.undecided(rule, f"{name}:dims", fi, f"no closed form recognised for dimension(s) {sorted(missing)} (found {dims})")
             for d in dims:
                 vals = ex.by_dim[d]
                 first = vals[0][0]
@@ -88,7 +97,76 @@ def formulas(ctx: Ctx, rule="FORMULA"):
                     ctx.hold(rule, site, where, f"= {first.show()} (agrees with {ref[1]})")
                 else:
                     ctx.violate(rule, site, where, f"{first.show()} differs from sibling {ref[1]}: {ref[0].show()}")
+    zero_rule(ctx, variants)
     return {r: {d: v[0] for d, v in dd.items()} for r, dd in table.items()}
+
+
+def generic_eval(ctx, fi, table, dims, rule):
+    """single-return converter without a dimension chain: evaluate per dimension with the
+    dimension substituted and calls to sibling converters replaced by their closed form"""
+    from ..algebra import Converter, NotAlgebraic
+    from fractions import Fraction
+
+    m = ctx.model
+    rets = [s for s in ast.walk(fi.node) if isinstance(s, ast.Return) and s.value is not None]
+    out = {}
+    if len(rets) != 1 or len(fi.params) < 2:
+        return out
+    par, dimname = fi.params[0], fi.params[1]
+    for d in dims:
+        def hook(cv, call, name, d=d):
+            short = (name or "").split(".")[-1]
+            mm = ROLE_RE.match(short)
+            if mm and mm.group(1) != mm.group(2) and call.args:
+                role = f"{mm.group(1)}_from_{mm.group(2)}"
+                val = table.get(role, {}).get(d)
+                if val is not None:
+                    return val[0].subst(F.X, cv.conv(call.args[0]))
+            return None
+
+        cv = Converter(resolve_dotted=lambda t: m.resolve(fi.module, t) or t, env={par: Expr.atom(F.X), dimname: Expr.const(d)},
+                       opaque_calls=False, call_hook=hook)
+        try:
+            out[d] = (cv.conv(rets[0].value), rets[0].value)
+        except NotAlgebraic:
+            continue
+        # ZERO: the property quantifies over arguments >= 0
+        for n in ast.walk(rets[0].value):
+            if isinstance(n, ast.BinOp) and isinstance(n.op, ast.Div):
+                try:
+                    den = cv.conv(n.right)
+                except NotAlgebraic:
+                    continue
+                if F.X in den.atoms():
+                    ctx.violate("ZERO", f"{fi.qualname}:dim={d}", (fi, n), f"`{U(n)[:60]}` divides by the argument: undefined (0/0 → NaN or ZeroDivisionError) at {par} = 0, which the conversion must handle")
+    return out
+
+
+def zero_rule(ctx: Ctx, variants):
+    """no variant divides by its argument (arguments >= 0 are in the domain)"""
+    from ..algebra import Converter, NotAlgebraic
+
+    n_ok = 0
+    for role, vs in variants.items():
+        for name, fi, ex in vs:
+            if fi is None:
+                continue
+            bad = None
+            for d, vals in ex.by_dim.items():
+                for e, node, note in vals:
+                    if note == "generic":
+                        continue
+                    par_names = {a.arg for f in ast.walk(fi.node) if isinstance(f, (ast.FunctionDef, ast.Lambda)) for a in f.args.args[:1]}
+                    for n in ast.walk(node):
+                        if isinstance(n, ast.BinOp) and isinstance(n.op, ast.Div) and ({x.id for x in ast.walk(n.right) if isinstance(x, ast.Name)} & par_names):
+                            bad = (n, d)
+                        if isinstance(n, ast.BinOp) and isinstance(n.op, ast.Pow) and isinstance(n.right, ast.UnaryOp) and ({x.id for x in ast.walk(n.left) if isinstance(x, ast.Name)} & par_names):
+                            bad = (n, d)
+            if bad:
+                ctx.violate("ZERO", f"{name}:dim={bad[1]}", (fi, bad[0]), f"`{U(bad[0])[:60]}` divides by the argument: undefined at 0")
+            else:
+                n_ok += 1
+                ctx.hold("ZERO", name, fi, "no division by the argument: defined at 0")
 
 
 def identities(ctx: Ctx, table, rule="FORMULA-ID"):
@@ -219,6 +297,7 @@ def check(ctx: Ctx):
     identities(ctx, table)
     wiring(ctx)
     ctx.expect("FORMULA", 24)
+    ctx.expect("ZERO", 8)
     ctx.expect("FORMULA-ID", 10)
     ctx.expect("WIRING", 6)
     ctx.exhaustive = True
